@@ -61,6 +61,8 @@ def rand_query(h, orc):
         q['how'] = h.pick(['declare', 'binary', 'text' if orc.get('read_text') else 'declare'])
     if kind == 'walk':
         q['td'] = h.chance(50)
+    if orc.get('q_spell') and h.chance(orc['q_spell']):
+        q['spell'] = h.pick(SPELLS_Q)        # the same path, spelled differently
     return q
 
 
@@ -81,6 +83,8 @@ def rand_call(h, orc, level):
     else:
         st = {'s': 'sb', 'f': f, 'args': args, 'catch': h.chance(orc.get('catch', 70))}
     st.update(extra)
+    if orc.get('mut_light') and h.chance(orc['mut_light']):
+        st['mut'] = True             # the caller edits the returned container in place
     if orc.get('catch_base') and st['catch'] and h.chance(orc['catch_base']):
         st['catch_base'] = True          # this caller also stops exceptions outside the Exception hierarchy
     return st
@@ -119,7 +123,7 @@ def oracle_stmt(orc, key, fr):
         if orc.get('falsy_ret') and h.chance(orc['falsy_ret']):
             # empty / zero values that are not plain JSON values yet: they must come back normalised all the same
             return {'s': 'return', 'v': h.pick(FALSY_RETURNS)}
-        return {'s': 'return', 'container': True} if orc.get('mutate') else {'s': 'return'}
+        return {'s': 'return', 'container': True} if orc.get('mutate') or orc.get('mut_light') else {'s': 'return'}
     if orc.get('p_probe') and h.chance(orc['p_probe']):
         return {'s': 'probe', 'paths': [h.pick(orc['qpaths']) for _ in range(3)]}
     r = h.below(100)
@@ -205,11 +209,11 @@ PROFILES = {
     'general': {},
     'crash': {'p_crash': 0.6, 'builds': [2, 3, 3], 'p_uncaught': 0.5, 'p_clean': 0.05, 'p_base': 0.3, 'base_raise': 25},
     'foreign': {'foreign': True, 'p_crash': 0.3, 'p_clean': 0.3, 'ext': [1, 2, 3, 4]},
-    'probe': {'p_probe': 0.5, 'p_crash': 0.05, 'raise': 25},
+    'probe': {'p_probe': 0.5, 'p_crash': 0.05, 'raise': 25, 'q_spell': 30},
     'rebuild': {'p_same_root': 1.0, 'p_crash': 0.0, 'ext': [0, 0, 0, 1], 'builds': [3, 4], 'p_clean': 0.0,
                 'p_vers': 0.0},
     'versions': {'p_same_root': 0.9, 'p_crash': 0.0, 'ext': [0, 0, 0, 1], 'builds': [3, 4], 'p_clean': 0.0,
-                 'p_vers': 0.8, 'maxstmts': [3, 4, 5]},
+                 'p_vers': 0.8, 'maxstmts': [3, 4, 5], 'mut_light': 40},
     'bfcontract': {'long': True, 'p_probe': 0.4, 'raise': 30, 'nocreate': 25, 'nocreate2': 18, 'nonjson': 10, 'falsy_ret': 15,
                    'p_crash': 0.1},
     # foreign files at build targets + external removal of directory trees + failing builds
@@ -410,6 +414,18 @@ KEY_POOL = [None, True, False, 0, 1, 1.0, 2, '1', 'a', '', [], {}, [1], (1,), [1
             [[1], {'a': (1,)}], [(1,), {'a': [1]}], [[1.0], {'a': [True]}], {'a': {'b': [1, {'c': None}]}},
             {'a': {'b': [1, {'c': None, 'd': None}]}}, 2 ** 63, float(2 ** 63), 'é', [None], [[]]]
 SPELLS = [None, 'bytes', 'pathlike', 'rel', 'dblsep', 'dotdot', 'dot']
+SPELLS_Q = ['bytes', 'pathlike', 'rel', 'dblsep', 'dotdot', 'dot', 'dotdot', 'dblsep']
+
+
+def _mutated(v, depth=0):
+    """What interp.mutate_in_place turns (the JSON round trip of) v into."""
+    if isinstance(v, (list, tuple)):
+        return [(_mutated(x, depth + 1) if depth < 3 else x) for x in v] + ['MUT']
+    if isinstance(v, dict):
+        d = {k: (_mutated(x, depth + 1) if depth < 3 else x) for k, x in v.items()}
+        d['MUT'] = 1
+        return d
+    return v
 
 
 def make_keys(seed, profile):
@@ -418,7 +434,7 @@ def make_keys(seed, profile):
     rnd = random.Random('keys:%s' % seed)
     v = rnd.choice(KEY_POOL)
     w = rnd.choice([v, v, rnd.choice(KEY_POOL), rnd.choice(KEY_POOL)])
-    shape = rnd.choice(['args', 'kw', 'kwextra', 'both', 'nested', 'poskw'])
+    shape = rnd.choice(['args', 'kw', 'kwextra', 'both', 'nested', 'poskw', 'mutkey', 'subkey'])
     if shape == 'args':
         c1, c2 = {'args': [v]}, {'args': [w]}
     elif shape == 'kw':
@@ -429,6 +445,26 @@ def make_keys(seed, profile):
             c1, c2 = c2, c1
     elif shape == 'both':
         c1, c2 = {'args': [v, w], 'kw': {'k': v}}, {'args': [v, w], 'kw': {'k': v}}
+    elif shape == 'subkey':
+        # dictionary keys / values that are instances of int / float / str subclasses with a repr of their own
+        # (IntEnum members and the like): the same key as the plain value and as its JSON string form
+        kt = rnd.choice([{'k': 'intS', 'n': '1'}, {'k': 'floatS', 'n': '1', 'r': '1.0'}, {'k': 'intS', 'n': '0'},
+                         {'k': 'strS', 's': '1'}])
+        plain = {'intS': 1, 'floatS': 1.0, 'strS': '1'}[kt['k']] if kt.get('n', '1') == '1' or kt['k'] == 'strS' else 0
+        d_t = {'k': 'dict', 'kv': [[kt, {'k': 'str', 's': 'x'}]]}
+        c1 = {'args_t': [d_t], 'args': ['<subkey>']}
+        c2 = {'args': [rnd.choice([{plain: 'x'}, {str(plain) if not isinstance(plain, float) else '1.0': 'x'}, {plain: 'x'}])]}
+        if rnd.random() < 0.3:      # ... or as a value in a list
+            c1 = {'args_t': [{'k': 'list', 'xs': [kt]}], 'args': ['<subval>']}
+            c2 = {'args': [[plain]]}
+        if rnd.random() < 0.5:
+            c1, c2 = c2, c1
+    elif shape == 'mutkey':
+        # the second call passes what the first call's function turned its (copy of the) argument into: still another key
+        v = rnd.choice([[1], {'a': 1}, [[1], {'a': (1,)}], {'a': {'b': [1, {'c': None}]}}, [], {}, [1, 2]])
+        c1, c2 = {'args': [], 'kw': {'k': v}}, {'args': [], 'kw': {'k': _mutated(v)}}
+        if rnd.random() < 0.4:
+            c1, c2 = {'args': [v]}, {'args': [_mutated(v)]}
     elif shape == 'poskw':       # the same items once as a trailing positional dict, once as keyword arguments
         lead = rnd.choice([[], [v], [v, 1]])
         c1, c2 = {'args': lead + [{'k': w}]}, {'args': list(lead), 'kw': {'k': w}}
@@ -443,7 +479,7 @@ def make_keys(seed, profile):
             'f0b': [{'s': 'write', 'c': 'c1', 'sz': 4}, {'s': 'return'}]}
     t = rnd.choice(LEAVES)
 
-    mut = rnd.random() < 0.35     # the functions edit the containers they receive in place: identity is unaffected
+    mut = rnd.random() < 0.35 or shape == 'mutkey'    # the functions edit the containers they receive in place: identity is unaffected
 
     def call(c, f, spell=None):
         st = {'s': kind, 'f': f, 'catch': True}
@@ -1037,6 +1073,7 @@ def make_scenario(seed, profile='general'):
         'nocreate2': P.get('nocreate2', 0), 'fixed_mt': P.get('fixed_mt', 0), 'sizes': P.get('sizes', SIZES),
         'falsy_ret': P.get('falsy_ret', 0), 'base_raise': P.get('base_raise', 0), 'catch_base': P.get('catch_base', 0),
         'read_text': True,          # read_text next to declare_read / read_binary (regress files predate this key)
+        'mut_light': P.get('mut_light', 0), 'q_spell': P.get('q_spell', 0),
         'p_probe': int(100 * P.get('p_probe', 0) / 4),
     }
     if P.get('exotic'):
